@@ -41,6 +41,13 @@ pub struct QSess {
     /// stores have seen since the session's NBIRTH was applied
     arrived: BTreeMap<String, BTreeMap<u64, bool>>,
     applied: BTreeMap<String, u64>,
+    /// `with_node_queue_size` of the case
+    q: u64,
+    /// C14 (`every well-formed message is admitted`), fault-free cases, per node: the store call by which each
+    /// message of the current publisher session that carries its id in a metric shows that it was admitted
+    /// (by sequence number; removed once judged), and the store calls seen since the session's NBIRTH was applied
+    expect_tok: BTreeMap<String, BTreeMap<u64, (String, &'static str)>>,
+    seen_tok: BTreeMap<String, BTreeSet<String>>,
 }
 
 impl QSess {
@@ -48,7 +55,17 @@ impl QSess {
         let mut sess = Sess::new(op);
         sess.burst_mode = true;
         let w: Vec<&str> = op.split(' ').collect();
-        QSess { sess, host_online: true, known: BTreeSet::new(), ip: kv(&w, "ip") == Some("1"), arrived: BTreeMap::new(), applied: BTreeMap::new() }
+        QSess {
+            sess,
+            host_online: true,
+            known: BTreeSet::new(),
+            ip: kv(&w, "ip") == Some("1"),
+            arrived: BTreeMap::new(),
+            applied: BTreeMap::new(),
+            q: kv(&w, "q").and_then(|x| x.parse().ok()).unwrap_or(1024),
+            expect_tok: BTreeMap::new(),
+            seen_tok: BTreeMap::new(),
+        }
     }
 
     /// execute one request line (without its ` => …` part) on the real code; returns the complete
@@ -62,6 +79,9 @@ impl QSess {
                 let mut events = vec![];
                 // what the burst must leave stale: the last lifecycle input per node
                 let mut last_is_death: BTreeMap<String, bool> = BTreeMap::new();
+                // C14: the NBIRTHs of this burst (node, id) and how many messages the burst holds per node
+                let mut births_here: Vec<(String, i64)> = vec![];
+                let mut per_node: BTreeMap<String, u64> = BTreeMap::new();
                 for e in body.split('|') {
                     let mut ew: Vec<&str> = vec!["hostq"];
                     ew.extend(e.split(' '));
@@ -70,15 +90,19 @@ impl QSess {
                             let n = ew[2].to_string();
                             let id = kv(&ew, "id").and_then(|x| x.parse::<i64>().ok()).unwrap_or(0);
                             let ts = kv(&ew, "ts").and_then(|x| x.parse::<u64>().ok()).unwrap_or(0);
+                            *per_node.entry(n.clone()).or_default() += 1;
                             match ew[3] {
                                 "nbirth" => {
                                     self.sess.note_nbirth(&n, id, ts);
                                     self.known.insert(n.clone());
                                     self.arrived.insert(n.clone(), BTreeMap::new());
+                                    self.expect_tok.insert(n.clone(), BTreeMap::new());
+                                    births_here.push((n.clone(), id));
                                     last_is_death.insert(n, false);
                                 }
                                 "ndeath" => {
                                     self.arrived.remove(&n);
+                                    self.expect_tok.remove(&n);
                                     if self.known.contains(&n) {
                                         last_is_death.insert(n, true);
                                     }
@@ -87,6 +111,16 @@ impl QSess {
                                     self.sess.note_msg(&n, id, ts);
                                     if let (Some(a), Some(seq)) = (self.arrived.get_mut(&n), kv(&ew, "seq").and_then(|x| x.parse::<u64>().ok())) {
                                         a.insert(seq, k != "ddeath");
+                                        // the store call that shows this very message (its id rides in a metric)
+                                        let tok = match (k, kv(&ew, "m") == Some("0") || id <= 0) {
+                                            ("ndata", false) => Some((format!("nodeData({})", id), "ndata")),
+                                            ("dbirth", false) => Some((format!("devBirth({},{},1)", kv(&ew, "dev").unwrap_or("?"), id), "dbirth")),
+                                            ("ddata", false) => Some((format!("devData({},{})", kv(&ew, "dev").unwrap_or("?"), id), "ddata")),
+                                            _ => None,
+                                        };
+                                        if let (Some(t), Some(x)) = (tok, self.expect_tok.get_mut(&n)) {
+                                            x.insert(seq, t);
+                                        }
                                     }
                                     self.known.insert(n);
                                 }
@@ -125,6 +159,57 @@ impl QSess {
                             if coherent { "burst-end" } else { "birth_ts>host_now" },
                             format!("{} => {:?}: {} still held birthed (devices {:?})", req, effs, n, self.sess.birthed_devices(&n)),
                         );
+                    }
+                }
+                // C14, `... while every well-formed message is admitted`, on a FAULT-FREE history (every message well-formed,
+                // delivered once; a new session's NBIRTH strictly newer than the previous one): however many messages of
+                // a node wait at once and WHATEVER the node queue size, when the burst has been handled
+                //  - every NBIRTH of the burst has been shown to the node's store (it changes the node's lifecycle), and
+                //  - every message of the node's current session whose predecessors have all arrived (so that C05 lets
+                //    it through) has reached its store: the store call carrying its id has been seen.
+                // Nothing is demanded of a message still waiting for a predecessor, of payloads without metrics (no id
+                // to recognise them by; the count of C05:prompt-apply covers them) or of DDEATHs.
+                if self.sess.clean && !self.sess.cancelled {
+                    for (n, e) in &effs {
+                        if e.starts_with("nodeBirth(") && e.ends_with(",1)") {
+                            self.seen_tok.insert(n.clone(), BTreeSet::new());
+                        } else if e.starts_with("nodeData(") || e.starts_with("devData(") || e.starts_with("devBirth(") {
+                            self.seen_tok.entry(n.clone()).or_default().insert(e.clone());
+                        }
+                    }
+                    let over = |n: &str| if per_node.get(n).copied().unwrap_or(0) > self.q { ":more-messages-than-node-queue" } else { "" };
+                    for (n, id) in &births_here {
+                        if self.expect_tok.contains_key(n) && !effs.iter().any(|(m, e)| m == n && *e == format!("nodeBirth({},1)", id)) {
+                            out.fail(
+                                "C14:well-formed-admitted",
+                                &format!("clean-burst:nbirth{}", over(n)),
+                                format!("{} => {:?}: the NBIRTH id={} of node {} (well-formed, newer than the birth held; node queue size {}) was not shown to the node's store", req, effs, id, n, self.q),
+                            );
+                        }
+                    }
+                    for (n, a) in &self.arrived {
+                        let mut mex = 1u64;
+                        while a.contains_key(&mex) {
+                            mex += 1;
+                        }
+                        if mex > 255 {
+                            continue;
+                        }
+                        let seen = self.seen_tok.get(n).cloned().unwrap_or_default();
+                        if let Some(x) = self.expect_tok.get_mut(n) {
+                            let due: Vec<u64> = x.keys().copied().filter(|s| *s < mex).collect();
+                            for s in due {
+                                let (tok, kind) = x.remove(&s).unwrap();
+                                if !seen.contains(&tok) {
+                                    out.fail(
+                                        "C14:well-formed-admitted",
+                                        &format!("clean-burst:{}{}", kind, over(n)),
+                                        format!("{} => {:?}: node {}'s well-formed {} seq={} never reached a store (expected {}; all of seq 1..{} of its session have arrived, no loss, no duplicate; node queue size {}, {} messages of the node in this burst)",
+                                            req, effs, n, kind, s, tok, mex - 1, self.q, per_node.get(n).copied().unwrap_or(0)),
+                                    );
+                                }
+                            }
+                        }
                     }
                 }
                 // C05, last sentence, on a FAULT-FREE history (every message delivered once, sessions of fewer than 256
@@ -566,6 +651,43 @@ fn scripted(out: &mut Out) {
         c.cancel(1);
         c.out.count("scripted");
     }
+    // (8) MORE MESSAGES OF ONE NODE THAN ITS QUEUE HOLDS, fault-free (C14 `every well-formed message is admitted`,
+    // C05 prompt-apply): a whole session - NBIRTH, DBIRTH, data - of two nodes already waiting when the host gets to
+    // it; a long in-order run of data for a settled node; NDEATH + the complete next session in one burst. The node
+    // queue (`with_node_queue_size` 1, 2, 3, 1024) applies back-pressure to the dispatcher, it never sheds a message.
+    for q in [1u64, 2, 3, 1024] {
+        let cfg = format!("ip=0 bd=1 un=1 ud=1 um=1 rf=1 rs=1 to=100 cd=0 rq=1 q={}", q);
+        let mut c = QCase::begin(out, &cfg, t0);
+        c.out.set_desc("clean scripted burst-exceeds-node-queue".into());
+        c.q.sess.ordered_ids = true;
+        c.q.sess.clean = true;
+        let mut evs = vec![format!("ev n1 nbirth ts={} bd=3 id=1 ans=ok", t0), format!("ev n2 nbirth ts={} bd=8 id=101 ans=ok", t0)];
+        evs.push(format!("ev n1 dbirth dev=1 seq=1 ts={} id=2 ans=ok", t0));
+        for k in 2..=9u64 {
+            if k % 2 == 0 {
+                evs.push(format!("ev n1 ddata dev=1 seq={} ts={} id={} ans=ok", k, t0, k + 1));
+            } else {
+                evs.push(format!("ev n1 ndata seq={} ts={} id={} ans=ok", k, t0, k + 1));
+            }
+            if k <= 5 {
+                evs.push(format!("ev n2 ndata seq={} ts={} id={} ans=ok", k - 1, t0, 100 + k));
+            }
+        }
+        c.burst(&evs);
+        let now = c.now;
+        let run: Vec<String> = (10..=21u64).map(|k| format!("ev n1 ndata seq={} ts={} id={} ans=ok", k, now, k + 1)).collect();
+        c.burst(&run);
+        let now = c.now;
+        let mut evs = vec!["ev n1 ndeath bd=3".to_string(), format!("ev n1 nbirth ts={} bd=4 id=30 ans=ok", now)];
+        evs.push(format!("ev n1 dbirth dev=2 seq=1 ts={} id=31 ans=ok", now));
+        for k in 2..=6u64 {
+            evs.push(format!("ev n1 ddata dev=2 seq={} ts={} id={} ans=ok", k, now, 30 + k));
+        }
+        c.burst(&evs);
+        c.adv(101);
+        c.out.count("scripted");
+        c.out.count("scripted:burst-exceeds-node-queue");
+    }
     // (6) payloads WITHOUT METRICS inside a burst (legal: seq and timestamp only): they take their sequence number
     // like any other message, so a fault-free burst stays fault-free (no NCMD, nothing left waiting when the reorder
     // timeout passes)
@@ -626,7 +748,7 @@ fn scripted(out: &mut Out) {
     }
 }
 
-pub const RULE: &str = "bursts through the real Application without quiescence in between (paused tokio time, mock clock frozen during a burst, recording stores; every event of a burst is handed to the event loop before anything is handled): (a) random cases, configuration as component host incl. node queue sizes 1/2/1024, 2-9 bursts of 2-12 events for 1-3 nodes: valid sessions with bounded reordering, duplicates, NDEATHs matching/mismatching, data for a never-seen node immediately followed by its NBIRTH, invalid payloads, host offline/online inside a burst, replayed NBIRTHs, unknown devices, store rejections, late old messages, between bursts sometimes time advanced to just before/after the reorder timeout; (b) fault-free bursts (oracle: no NCMD); (c) every burst of length <= 3 over an 11-symbol single-node alphabet (incl. a payload without metrics), fresh and after a settled NBIRTH+DBIRTH, queue sizes 1 and 2; (d) scripted witnesses, incl. a fault-free LONG reordering inside one window of 256 (one message overtakes the 128/129/200/253 before it and leads a burst, the overtaken ones follow in bursts of 12; node queue 1/2/1024; oracles no NCMD, applied in order, all applied when the gap has closed); payloads without metrics (`m=0`) occur in every generated session (one message in eight), in the exhaustive alphabet and in a scripted fault-free burst (oracle C05:prompt-apply/clean-burst: on a fault-free history every message whose predecessors have arrived has been applied when the burst has been handled); one random case in three is cancelled (`AppClient::cancel()`) after its last burst or earlier, final Offline delivered or withheld, the bursts behind the cancel must observe nothing (C20:host-* clauses as in component host). Each line carries the per-node effect lists; the model answers whether some schedule of Model/HostQ produces exactly them. Non-trivial = a case with a burst of at least two events; distinct = distinct request-line sequences (hashed).";
+pub const RULE: &str = "bursts through the real Application without quiescence in between (paused tokio time, mock clock frozen during a burst, recording stores; every event of a burst is handed to the event loop before anything is handled): (a) random cases, configuration as component host incl. node queue sizes 1/2/1024, 2-9 bursts of 2-12 events for 1-3 nodes: valid sessions with bounded reordering, duplicates, NDEATHs matching/mismatching, data for a never-seen node immediately followed by its NBIRTH, invalid payloads, host offline/online inside a burst, replayed NBIRTHs, unknown devices, store rejections, late old messages, between bursts sometimes time advanced to just before/after the reorder timeout; (b) fault-free bursts (oracle: no NCMD); (c) every burst of length <= 3 over an 11-symbol single-node alphabet (incl. a payload without metrics), fresh and after a settled NBIRTH+DBIRTH, queue sizes 1 and 2; (d) scripted witnesses, incl. a fault-free LONG reordering inside one window of 256 (one message overtakes the 128/129/200/253 before it and leads a burst, the overtaken ones follow in bursts of 12; node queue 1/2/1024; oracles no NCMD, applied in order, all applied when the gap has closed); payloads without metrics (`m=0`) occur in every generated session (one message in eight), in the exhaustive alphabet and in a scripted fault-free burst (oracle C05:prompt-apply/clean-burst: on a fault-free history every message whose predecessors have arrived has been applied when the burst has been handled); one random case in three is cancelled (`AppClient::cancel()`) after its last burst or earlier, final Offline delivered or withheld, the bursts behind the cancel must observe nothing (C20:host-* clauses as in component host). Each line carries the per-node effect lists; the model answers whether some schedule of Model/HostQ produces exactly them. (8) bursts larger than the node queue (queue sizes 1/2/3/1024: two whole sessions waiting at once, 12 in-order NDATA, NDEATH plus the complete next session) with the clause C14:well-formed-admitted. Non-trivial = a case with a burst of at least two events; distinct = distinct request-line sequences (hashed).";
 
 pub fn run(args: &Args, out: &mut Out) -> &'static str {
     let mut rng = Rng::new(args.seed);
